@@ -30,9 +30,13 @@ inductive STok
   | bad (c : Char)
   deriving DecidableEq, Repr
 
-def isWordStart (c : Char) : Bool := c.isAlpha || c == '_'
-def isWordChar (c : Char) : Bool := c.isAlphanum || c == '_'
-def isNumChar (c : Char) : Bool := c.isDigit || c == '.'
+/-- `0`–`9` -/
+def isDigitC (c : Char) : Bool := decide (48 ≤ c.toNat ∧ c.toNat ≤ 57)
+/-- `A`–`Z`, `a`–`z`, `_` -/
+def isWordStart (c : Char) : Bool :=
+  decide ((65 ≤ c.toNat ∧ c.toNat ≤ 90) ∨ (97 ≤ c.toNat ∧ c.toNat ≤ 122) ∨ c.toNat = 95)
+def isWordChar (c : Char) : Bool := isWordStart c || isDigitC c
+def isNumChar (c : Char) : Bool := isDigitC c || c == '.'
 
 /-- State of the lexer between two characters. -/
 inductive LS
@@ -50,7 +54,7 @@ def start (c : Char) : LS × List STok :=
   if c = ' ' ∨ c = '\n' ∨ c = '\t' ∨ c = '\r' then (.idle, [])
   else if c = '\'' then (.str [], [])
   else if isWordStart c then (.word [c], [])
-  else if c.isDigit then (.num [c], [])
+  else if isDigitC c then (.num [c], [])
   else if c = '-' then (.minus, [])
   else if c = '/' then (.slash, [])
   else if c = '<' then (.lt, [])
@@ -244,6 +248,11 @@ def pType : List STok → Option (Str × List STok)
     else some (w, rest)
   | _ => none
 
+/-- is the next token an opening bracket? -/
+def bracketNext : List STok → Bool
+  | .sym s :: _ => s == ['['] || s == ['(']
+  | _ => false
+
 def expectSym (s : Str) : List STok → Option (List STok)
   | .sym t :: rest => if t = s then some rest else none
   | _ => none
@@ -256,10 +265,7 @@ mutual
 /-- expression whose binary operators all have precedence ≥ `min` -/
 def pExpr : Nat → Nat → List STok → Option (SqlTree × List STok)
   | 0, _, _ => none
-  | f + 1, min, ts =>
-    match pUnary f ts with
-    | none => none
-    | some (lhs, rest) => pBinLoop f min lhs rest
+  | f + 1, min, ts => (pUnary f ts).bind fun r => pBinLoop f min r.1 r.2
 def pBinLoop : Nat → Nat → SqlTree → List STok → Option (SqlTree × List STok)
   | 0, _, _, _ => none
   | f + 1, min, lhs, ts =>
@@ -267,56 +273,33 @@ def pBinLoop : Nat → Nat → SqlTree → List STok → Option (SqlTree × List
     | [] => some (lhs, [])
     | t :: rest =>
       match binop t with
-      | none => some (lhs, ts)
+      | none => some (lhs, t :: rest)
       | some (p, name) =>
-        if p < min then some (lhs, ts)
-        else
-          match pExpr f (p + 1) rest with
-          | none => none
-          | some (rhs, rest') => pBinLoop f min (.bin name lhs rhs) rest'
+        if p < min then some (lhs, t :: rest)
+        else (pExpr f (p + 1) rest).bind fun r => pBinLoop f min (.bin name lhs r.1) r.2
 def pUnary : Nat → List STok → Option (SqlTree × List STok)
   | 0, _ => none
   | f + 1, ts =>
     match ts with
     | .sym s :: rest =>
-      if isPrefixOp s then
-        match pUnary f rest with
-        | none => none
-        | some (x, rest') => some (.un s x, rest')
-      else
-        match pPrimary f ts with
-        | none => none
-        | some (p, rest') => pPostLoop f p rest'
-    | _ =>
-      match pPrimary f ts with
-      | none => none
-      | some (p, rest') => pPostLoop f p rest'
+      if isPrefixOp s then (pUnary f rest).bind fun r => some (.un s r.1, r.2)
+      else (pPrimary f (.sym s :: rest)).bind fun r => pPostLoop f r.1 r.2
+    | ts => (pPrimary f ts).bind fun r => pPostLoop f r.1 r.2
 def pPostLoop : Nat → SqlTree → List STok → Option (SqlTree × List STok)
   | 0, _, _ => none
   | f + 1, cur, ts =>
     match ts with
     | .sym s :: rest =>
       if s = [':', ':'] then
-        match pType rest with
-        | none => none
-        | some (ty, rest') =>
+        (pType rest).bind fun r =>
           -- `x::integer[0]` / `x::integer(2)` would be an array type / a type modifier
-          match rest' with
-          | .sym s' :: _ => if s' = ['['] ∨ s' = ['('] then none else pPostLoop f (.cast cur ty) rest'
-          | _ => pPostLoop f (.cast cur ty) rest'
+          if bracketNext r.2 then none else pPostLoop f (.cast cur r.1) r.2
       else if s = ['['] then
-        match pExpr f 0 rest with
-        | none => none
-        | some (i, rest') =>
-          match expectSym [']'] rest' with
-          | none => none
-          | some rest'' => pPostLoop f (.index cur i) rest''
+        (pExpr f 0 rest).bind fun r => (expectSym [']'] r.2).bind fun rest' => pPostLoop f (.index cur r.1) rest'
       else if s = ['('] then
-        match pArgs f [')'] rest with
-        | none => none
-        | some (args, rest') => pPostLoop f (.call cur args) rest'
-      else some (cur, ts)
-    | _ => some (cur, ts)
+        (pArgs f [')'] rest).bind fun r => pPostLoop f (.call cur r.1) r.2
+      else some (cur, .sym s :: rest)
+    | ts => some (cur, ts)
 def pPrimary : Nat → List STok → Option (SqlTree × List STok)
   | 0, _ => none
   | f + 1, ts =>
@@ -324,50 +307,20 @@ def pPrimary : Nat → List STok → Option (SqlTree × List STok)
     | .num s :: rest => some (.num s, rest)
     | .str s :: rest => some (.str s, rest)
     | .sym s :: rest =>
-      if s = ['('] then
-        match pExpr f 0 rest with
-        | none => none
-        | some (e, rest') =>
-          match expectSym [')'] rest' with
-          | none => none
-          | some rest'' => some (e, rest'')
+      if s = ['('] then (pExpr f 0 rest).bind fun r => (expectSym [')'] r.2).bind fun rest' => some (r.1, rest')
       else none
     | .word w :: rest =>
       if kw w ['n', 'u', 'l', 'l'] then some (.null, rest)
       else if kw w ['t', 'r', 'u', 'e'] then some (.bool true, rest)
       else if kw w ['f', 'a', 'l', 's', 'e'] then some (.bool false, rest)
       else if kw w ['a', 'r', 'r', 'a', 'y'] then
-        match expectSym ['['] rest with
-        | none => none
-        | some rest' =>
-          match pArgs f [']'] rest' with
-          | none => none
-          | some (es, rest'') => some (.array es, rest'')
+        (expectSym ['['] rest).bind fun rest' => (pArgs f [']'] rest').bind fun r => some (.array r.1, r.2)
       else if kw w ['c', 'a', 's', 'e'] then
-        match pExpr f 0 rest with
-        | none => none
-        | some (a, r1) =>
-          match expectKw ['w', 'h', 'e', 'n'] r1 with
-          | none => none
-          | some r1' =>
-            match pExpr f 0 r1' with
-            | none => none
-            | some (b, r2) =>
-              match expectKw ['t', 'h', 'e', 'n'] r2 with
-              | none => none
-              | some r2' =>
-                match pExpr f 0 r2' with
-                | none => none
-                | some (c, r3) =>
-                  match expectKw ['e', 'l', 's', 'e'] r3 with
-                  | none => none
-                  | some r3' =>
-                    match pExpr f 0 r3' with
-                    | none => none
-                    | some (d, r4) =>
-                      match expectKw ['e', 'n', 'd'] r4 with
-                      | none => none
-                      | some r4' => some (.case_ a b c d, r4')
+        (pExpr f 0 rest).bind fun a => (expectKw ['w', 'h', 'e', 'n'] a.2).bind fun r1 =>
+        (pExpr f 0 r1).bind fun b => (expectKw ['t', 'h', 'e', 'n'] b.2).bind fun r2 =>
+        (pExpr f 0 r2).bind fun c => (expectKw ['e', 'l', 's', 'e'] c.2).bind fun r3 =>
+        (pExpr f 0 r3).bind fun d => (expectKw ['e', 'n', 'd'] d.2).bind fun r4 =>
+        some (.case_ a.1 b.1 c.1 d.1, r4)
       else if isReserved w then none
       else some (.ident w, rest)
     | _ => none
@@ -382,18 +335,10 @@ def pArgs : Nat → Str → List STok → Option (List SqlTree × List STok)
 def pArgsMore : Nat → Str → List STok → Option (List SqlTree × List STok)
   | 0, _, _ => none
   | f + 1, close, ts =>
-    match pExpr f 0 ts with
-    | none => none
-    | some (e, rest) =>
-      match expectSym close rest with
-      | some rest' => some ([e], rest')
-      | none =>
-        match expectSym [','] rest with
-        | none => none
-        | some rest' =>
-          match pArgsMore f close rest' with
-          | none => none
-          | some (es, rest'') => some (e :: es, rest'')
+    (pExpr f 0 ts).bind fun r =>
+      match expectSym close r.2 with
+      | some rest' => some ([r.1], rest')
+      | none => (expectSym [','] r.2).bind fun rest' => (pArgsMore f close rest').bind fun q => some (r.1 :: q.1, q.2)
 end
 
 def parseFuel (ts : List STok) : Nat := 8 * ts.length + 16
